@@ -342,6 +342,10 @@ def bit_equal(a, b):
   if a.dtype.kind in 'SU' and a.dtype.kind == b.dtype.kind:
     # fixed-width strings: the width is storage, not value (np.concatenate widens to the widest piece it is given)
     return a.shape == b.shape and bool(np.array_equal(a, b))
+  if a.dtype != b.dtype and a.dtype.kind in 'iufcb' and a.dtype.newbyteorder('=') == b.dtype.newbyteorder('='):
+    # the same values stored in another byte order (np.concatenate and friends return native order): checks that care about the
+    # byte order of what fedjax hands back compare dtypes explicitly
+    a, b = a.astype(a.dtype.newbyteorder('=')), b.astype(b.dtype.newbyteorder('='))
   if a.dtype != b.dtype or a.shape != b.shape:
     return False
   if a.dtype == object:
